@@ -208,6 +208,7 @@ type GenCfg struct {
 	Subjects  bool // allow subject links
 	Indexes   bool // allow index kinds
 	EmptyBlob bool
+	NoOctet   bool // never use application/octet-stream (keeps resolveBlob answers distinguishable)
 }
 
 var layerMTs = []string{
@@ -227,6 +228,9 @@ func GenDAG(rng *rand.Rand, cfg GenCfg) *Universe {
 			data = []byte{}
 		}
 		mt := layerMTs[rng.Intn(len(layerMTs))]
+		if cfg.NoOctet && mt == "application/octet-stream" {
+			mt = layerMTs[0]
+		}
 		if i == 0 {
 			mt = configMTs[rng.Intn(len(configMTs))]
 			if mt == ocispec.MediaTypeEmptyJSON {
